@@ -1,6 +1,7 @@
 import Dashu.Driver.Loop
 import Dashu.Model.Int.Div
 import Dashu.Model.Int.NumModular
+import Dashu.Model.Int.PrimDiv
 /-
   Driver of group `div` (C02): runs the mirrored division model; beside every result it evaluates
   the specification (`Nat` `/ %`, `Int.tdiv/tmod`, `Int.ediv/emod` — Lean core) and appends
@@ -89,8 +90,59 @@ def nmDispatch (op : String) (args : List String) : Option String :=
     pure (chk ("ok " ++ natToHex hm) ("ok " ++ natToHex hs))
   | _, _ => none
 
+def primTy (s : String) : Option PrimDiv.PTy :=
+  match s with
+  | "u8" => some ⟨8, false⟩ | "u16" => some ⟨16, false⟩ | "u32" => some ⟨32, false⟩
+  | "u64" => some ⟨64, false⟩ | "u128" => some ⟨128, false⟩ | "usize" => some ⟨64, false⟩
+  | "i8" => some ⟨8, true⟩ | "i16" => some ⟨16, true⟩ | "i32" => some ⟨32, true⟩
+  | "i64" => some ⟨64, true⟩ | "i128" => some ⟨128, true⟩ | "isize" => some ⟨64, true⟩
+  | _ => none
+
+def ii (p : Int × Int) : String := intToHex p.1 ++ " " ++ intToHex p.2
+
+/-- model result and specification of one primitive op -/
+def primEval (t : PrimDiv.PTy) (op : String) (a b : Int) : Option (String × String) :=
+  let bad : Option String :=
+    if b = 0 then some "panic Undocumented(PrimDivideByZero)"
+    else if t.signed ∧ a = t.lo ∧ b = -1 then some "panic Undocumented(PrimOverflow)" else none
+  let sp (s : String) : String := match bad with | some e => e | none => "ok " ++ s
+  match op with
+  | "divrem" => some (res (ii <$> PrimDiv.divRem t a b), sp (ii (Int.tdiv a b, Int.tmod a b)))
+  | "divremassign" => some (res (ii <$> PrimDiv.divRemAssign t a b), sp (ii (Int.tdiv a b, Int.tmod a b)))
+  | "diveuclid" => some (res (intToHex <$> PrimDiv.divEuclid t a b), sp (intToHex (a / b)))
+  | "remeuclid" => some (res (intToHex <$> PrimDiv.remEuclid t a b), sp (intToHex (a % b)))
+  | "divremeuclid" => some (res (ii <$> PrimDiv.divRemEuclid t a b), sp (ii (a / b, a % b)))
+  | _ => none
+
+def hashStr (h : Nat) (s : String) : Nat :=
+  let h := s.toUTF8.foldl (fun h b => (h * 257 + b.toNat) % ckMod) h
+  (h * 257 + 10) % ckMod
+
+def primDispatch (op : String) (args : List String) : Option String :=
+  match op, args with
+  | "p.sweep", [ty, o, a] => do
+    let t ← primTy ty
+    let a ← parseInt a
+    if ¬ t.InRange a ∨ t.bits ≠ 8 then none
+    let bs : List Int := if t.signed then (List.range 256).map (fun (i : Nat) => (i : Int) - 128)
+                         else (List.range 256).map (fun (i : Nat) => (i : Int))
+    let step (acc : Option (Nat × Nat)) (b : Int) : Option (Nat × Nat) := do
+      let (hm, hs) ← acc
+      let (m, s) ← primEval t o a b
+      pure (hashStr hm m, hashStr hs s)
+    let (hm, hs) ← bs.foldl step (some (0, 0))
+    pure (chk ("ok " ++ natToHex hm) ("ok " ++ natToHex hs))
+  | _, [ty, a, b] => do
+    let t ← primTy ty
+    let a ← parseInt a; let b ← parseInt b
+    if ¬ t.InRange a ∨ ¬ t.InRange b then none
+    let (m, s) ← primEval t (op.drop 2).toString a b
+    pure (chk m s)
+  | _, _ => none
+
 def dispatch : Dispatch := fun W op args =>
   if op.startsWith "nm." then nmDispatch op args else
+  if op.startsWith "p." then primDispatch op args else
   match op, args with
   -- ------------------------------------------------------------------ UBig
   | "u.div", [a, b] => do
